@@ -11,100 +11,104 @@ from .. import splitter_facts as sf
 
 def run(P: Program, rep: Report):
     rep.not_decided += ["str.isspace vs str.rstrip on exotic Unicode whitespace", "free-text extraction beyond class strings of length 5"]
-    sf.sm.configure(P)
-    rx = find_mark_regex(P)
-    singles = rx.single_char_marks()
+    def product_rules():
+        sf.sm.configure(P)
+        rx = find_mark_regex(P)
+        singles = rx.single_char_marks()
 
-    rep.rule("C03.R1", "every newline is a mark: the newline alternative of the mark regex carries no assertion, so lines "
-                       "ending in a backslash are counted")
-    if "\n" not in singles:
-        rep.fail("C03.R1", "regex:newline", rx.loc, "the mark regex has no alternative matching a single newline: lines cannot be counted")
-    else:
-        ok = any(not a.not_before and not a.before and not a.ahead and not a.not_ahead and not a.anchors for a in singles["\n"])
-        rep.check(ok, "C03.R1", "regex:newline", rx.loc,
-                  "the newline is only matched under an assertion (e.g. not preceded by a backslash): a line ending in a "
-                  "backslash is not counted and all later start_line values are one too small")
-
-    for i_, al in enumerate(rx.alts):
-        is_newline_alt = al.fixed_single_char() and al.items[0].cs.is_finite() and al.items[0].cs.chars == {"\n"}
-        if not is_newline_alt:
-            rep.check(not al.can_consume("\n"), "C03.R1", f"regex:alt{i_}:no-newline-inside", rx.loc,
-                      f"the alternative {al!r} of the mark regex can consume a newline: a line break swallowed by another mark (e.g. between a block "
-                      f"type and its brace) is never counted, all later start lines are too small")
-
-    rep.rule("C03.R2", "line counter ownership: the counter is written only at its initialisation (-1, paired with exactly one "
-                       "prepended newline) and by +1 per newline mark inside _next_mark; newline marks never reach the scanners")
-    cls = P.cls("splitter", "Splitter")
-    writes = []
-    for f in cls.methods.values():
-        for n in own_nodes(f.node):
-            tg = []
-            if isinstance(n, ast.Assign):
-                tg = n.targets
-            elif isinstance(n, (ast.AugAssign, ast.AnnAssign)):
-                tg = [n.target]
-            for t in tg:
-                for x in ast.walk(t):
-                    if isinstance(x, ast.Attribute) and x.attr == sf.sm.ATTR_LINE and isinstance(x.ctx, ast.Store):
-                        writes.append((f, n))
-    rep.require_count("C03.R2", "writes of the line counter", len(writes), 2)
-    for f, n in writes:
-        construct = f"line-counter-write:{f.name}:{norm_stmt(n)}"
-        loc = f"{f.module.relpath}:{n.lineno}"
-        if f.name == "__init__":
-            # decided by running the constructor: the text is the argument with exactly one newline in front, the counter starts at -1
-            from ..absint import explore as _explore, Raised as _Raised, Unsupported as _Unsupported
-            from .common import driver_interp as _di
-
-            def init_run(ctx):
-                it = _di(P, ctx, "splitter")
-                try:
-                    sp = it.construct(cls, ["XYZ"], {})
-                    return (sp.attrs.get(sf.sm.ATTR_TEXT), sp.attrs.get(sf.sm.ATTR_LINE))
-                except (_Raised, _Unsupported) as e_:
-                    return (repr(e_), None)
-            for _c, (txt, ln) in _explore(init_run, 5):
-                rep.check(txt == "\nXYZ" and ln == -1 and not isinstance(ln, bool), "C03.R2", construct, loc,
-                          f"Splitter('XYZ') starts with text {txt!r} and line counter {ln!r}: expected exactly one newline in front of the text "
-                          f"paired with a counter of -1")
-        elif f.name == sf.sm.M_NEXT_MARK:
-            ok = isinstance(n, ast.AugAssign) and isinstance(n.op, ast.Add) and ast.unparse(n.value) == "1"
-            rep.check(ok, "C03.R2", construct, loc, "line counter is not advanced by exactly +1")
+        rep.rule("C03.R1", "every newline is a mark: the newline alternative of the mark regex carries no assertion, so lines "
+                           "ending in a backslash are counted")
+        if "\n" not in singles:
+            rep.fail("C03.R1", "regex:newline", rx.loc, "the mark regex has no alternative matching a single newline: lines cannot be counted")
         else:
-            rep.fail("C03.R2", construct, loc, f"line counter written outside __init__/_next_mark (in {f.name})")
-    issues, scen = sf.check_next_mark(P)
-    fi = P.func("splitter", f"Splitter.{sf.sm.M_NEXT_MARK}")
-    lineish = [i for i in issues if "line counter" in i["message"] or "newline mark" in i["message"] or "analyser" in i["message"]]
-    for s in scen:
-        rep.ok("C03.R2", "next_mark:" + s, fi.loc) if not any(i["scenario"] in s for i in lineish) else None
-    for i in lineish:
-        rep.fail("C03.R2", "next_mark:" + i["message"][:70], fi.loc, f"{i['message']} [{i['scenario']}]")
+            ok = any(not a.not_before and not a.before and not a.ahead and not a.not_ahead and not a.anchors for a in singles["\n"])
+            rep.check(ok, "C03.R1", "regex:newline", rx.loc,
+                      "the newline is only matched under an assertion (e.g. not preceded by a backslash): a line ending in a "
+                      "backslash is not counted and all later start_line values are one too small")
 
-    rep.rule("C03.R3", "tiling: on every mark sequence each block's raw text is [start of its block-start mark, end of its "
-                       "closing brace) resp. ends at the start of the mark that aborted it (or the text end), and the free text "
-                       "between blocks starts exactly where the previous raw ended and ends where the next raw starts. "
-                       + sf.PRODUCT_RULE_TEXT)
-    sf.report_product(rep, P, "C03.R3", ["offset"], "raw texts tile the input")
+        for i_, al in enumerate(rx.alts):
+            is_newline_alt = al.fixed_single_char() and al.items[0].cs.is_finite() and al.items[0].cs.chars == {"\n"}
+            if not is_newline_alt:
+                rep.check(not al.can_consume("\n"), "C03.R1", f"regex:alt{i_}:no-newline-inside", rx.loc,
+                          f"the alternative {al!r} of the mark regex can consume a newline: a line break swallowed by another mark (e.g. between a block "
+                          f"type and its brace) is never counted, all later start lines are too small")
 
-    rep.rule("C03.R4", "every block's start_line is the line counter value of its block-start mark, every field's start_line "
-                       "the value at its '=' mark, free text reports the line of the position where it starts (same product)")
-    sf.report_product(rep, P, "C03.R4", ["line"], "start lines")
+        rep.rule("C03.R2", "line counter ownership: the counter is written only at its initialisation (-1, paired with exactly one "
+                           "prepended newline) and by +1 per newline mark inside _next_mark; newline marks never reach the scanners")
+        cls = P.cls("splitter", "Splitter")
+        writes = []
+        for f in cls.methods.values():
+            for n in own_nodes(f.node):
+                tg = []
+                if isinstance(n, ast.Assign):
+                    tg = n.targets
+                elif isinstance(n, (ast.AugAssign, ast.AnnAssign)):
+                    tg = [n.target]
+                for t in tg:
+                    for x in ast.walk(t):
+                        if isinstance(x, ast.Attribute) and x.attr == sf.sm.ATTR_LINE and isinstance(x.ctx, ast.Store):
+                            writes.append((f, n))
+        rep.require_count("C03.R2", "writes of the line counter", len(writes), 2)
+        for f, n in writes:
+            construct = f"line-counter-write:{f.name}:{norm_stmt(n)}"
+            loc = f"{f.module.relpath}:{n.lineno}"
+            if f.name == "__init__":
+                # decided by running the constructor: the text is the argument with exactly one newline in front, the counter starts at -1
+                from ..absint import explore as _explore, Raised as _Raised, Unsupported as _Unsupported
+                from .common import driver_interp as _di
 
-    rep.rule("C03.R5", "free-text extraction: for every string over {newline, space, tab, non-space} up to length 5 the comment "
-                       "is the text up to surrounding whitespace, its line is base + newlines in front of it, and "
-                       "whitespace-only text yields no block (abstract run of _end_implicit_comment)")
-    iss, n = sf.check_end_implicit_comment(P)
-    rep.count("implicit_comment_class_strings", n)
-    fe = P.func("splitter", f"Splitter.{sf.sm.M_END_IMPLICIT}")
-    seen = set()
-    for i in iss:
-        k = i["message"].split(":")[0][:60]
-        if k in seen:
-            continue
-        seen.add(k)
-        rep.fail("C03.R5", "end_implicit_comment:" + k, fe.loc, i["message"])
-    if not iss:
-        rep.ok("C03.R5", "end_implicit_comment:class-strings", fe.loc, f"{n} class strings agree")
+                def init_run(ctx):
+                    it = _di(P, ctx, "splitter")
+                    try:
+                        sp = it.construct(cls, ["XYZ"], {})
+                        return (sp.attrs.get(sf.sm.ATTR_TEXT), sp.attrs.get(sf.sm.ATTR_LINE))
+                    except (_Raised, _Unsupported) as e_:
+                        return (repr(e_), None)
+                for _c, (txt, ln) in _explore(init_run, 5):
+                    rep.check(txt == "\nXYZ" and ln == -1 and not isinstance(ln, bool), "C03.R2", construct, loc,
+                              f"Splitter('XYZ') starts with text {txt!r} and line counter {ln!r}: expected exactly one newline in front of the text "
+                              f"paired with a counter of -1")
+            elif f.name == sf.sm.M_NEXT_MARK:
+                ok = isinstance(n, ast.AugAssign) and isinstance(n.op, ast.Add) and ast.unparse(n.value) == "1"
+                rep.check(ok, "C03.R2", construct, loc, "line counter is not advanced by exactly +1")
+            else:
+                rep.fail("C03.R2", construct, loc, f"line counter written outside __init__/_next_mark (in {f.name})")
+        issues, scen = sf.check_next_mark(P)
+        fi = P.func("splitter", f"Splitter.{sf.sm.M_NEXT_MARK}")
+        lineish = [i for i in issues if "line counter" in i["message"] or "newline mark" in i["message"] or "analyser" in i["message"]]
+        for s in scen:
+            rep.ok("C03.R2", "next_mark:" + s, fi.loc) if not any(i["scenario"] in s for i in lineish) else None
+        for i in lineish:
+            rep.fail("C03.R2", "next_mark:" + i["message"][:70], fi.loc, f"{i['message']} [{i['scenario']}]")
+
+        rep.rule("C03.R3", "tiling: on every mark sequence each block's raw text is [start of its block-start mark, end of its "
+                           "closing brace) resp. ends at the start of the mark that aborted it (or the text end), and the free text "
+                           "between blocks starts exactly where the previous raw ended and ends where the next raw starts. "
+                           + sf.PRODUCT_RULE_TEXT)
+        sf.report_product(rep, P, "C03.R3", ["offset"], "raw texts tile the input")
+
+        rep.rule("C03.R4", "every block's start_line is the line counter value of its block-start mark, every field's start_line "
+                           "the value at its '=' mark, free text reports the line of the position where it starts (same product)")
+        sf.report_product(rep, P, "C03.R4", ["line"], "start lines")
+
+        rep.rule("C03.R5", "free-text extraction: for every string over {newline, space, tab, non-space} up to length 5 the comment "
+                           "is the text up to surrounding whitespace, its line is base + newlines in front of it, and "
+                           "whitespace-only text yields no block (abstract run of _end_implicit_comment)")
+        iss, n = sf.check_end_implicit_comment(P)
+        rep.count("implicit_comment_class_strings", n)
+        fe = P.func("splitter", f"Splitter.{sf.sm.M_END_IMPLICIT}")
+        seen = set()
+        for i in iss:
+            k = i["message"].split(":")[0][:60]
+            if k in seen:
+                continue
+            seen.add(k)
+            rep.fail("C03.R5", "end_implicit_comment:" + k, fe.loc, i["message"])
+        if not iss:
+            rep.ok("C03.R5", "end_implicit_comment:class-strings", fe.loc, f"{n} class strings agree")
+
+
+    sf.guard(rep, "C03.R3", product_rules)
 
     rep.rule("C03.R6", "blocks that stand in for others keep their own source: a duplicate-key block reports the raw text and start line "
                        "of the duplicate (not of the first block); parse_string hands the text unchanged to the splitter (no stripped "
